@@ -1,6 +1,21 @@
-"""C07 — see DESIGN.md section 5 "C07". Theorems: coq/Properties/C07.v (over Mseq); tie: T1 seq-diff (checks/seqcommon.py)."""
+"""C07 — see DESIGN.md section 5 "C07". Theorems: coq/Properties/C07.v (over Mseq); ties: T1 seq-diff with probes around every
+request (checks/seqcommon.py) and the metamorphic twin run (lib/seqtie.twin_stage): a history with and without its failed
+requests must be indistinguishable."""
 from checks import seqcommon
+from lib import seqtie
 
 
 def run(ctx):
-    seqcommon.run_seq_only(ctx, "C07")
+    if ctx.replay:
+        return seqcommon.replay(ctx, "C07")
+    ok = ctx.coq_stage()
+    seqcommon.seq_stage(ctx, "C07")
+    prof = seqcommon.prof(weights={"try": 30, "lock": 8, "unl": 20, "ren": 8, "adv": 22, "probe": 4, "restart": 1, "disc": 3},
+                          names=[seqcommon.H("a"), seqcommon.H("ab"), seqcommon.H("b")],
+                          sizes=[None, 1, 2, 3, 2, 1, 0, -1], lts=[None, 0, 1, 3, -1], wts=[None, 0, 1],
+                          gc=[[2000000000, 1000000000], [1000000000, 0], [200000000, 0]],
+                          advs=[0, 1, 200000000, 1000000000, 1000000001, 2000000000, 3000000000],
+                          probe_every=2, bad_key_pct=20, no_sess_pct=3, min_len=12, max_len=34)
+    seqtie.twin_stage(ctx, prof, 300 if ctx.tier == "quick" else 4000)
+    if not ok and not ctx.violations:
+        ctx.coq_broken_violation()
